@@ -23,6 +23,19 @@ def dec(o):
     return "".join(chr(int(x)) for x in o.strip("()").split())
 
 
+def source_table():
+    """the language table as the translator read it from language.rs: {lang: (tag, {sublang: tag})}"""
+    import os, re
+    path = os.path.join(os.path.dirname(os.path.abspath(__file__)), "..", "..", "coq", "gen", "GenLanguage.v")
+    text = open(path, encoding="utf-8").read()
+    tab = {}
+    tx = lambda l: "".join(chr(int(x)) for x in l.split(";") if x.strip())
+    for m in re.finditer(r"^\s*\((\d+), \[([\d; ]*)\], \[(.*?)\]\);?\s*$", text, re.M):
+        subs = {int(a): tx(b) for a, b in re.findall(r"\((\d+), \[([\d; ]*)\]\)", m.group(3))}
+        tab[int(m.group(1))] = (tx(m.group(2)), subs)
+    return tab
+
+
 def gen_cases(rng, tier, info):
     cases = []
     for i in range(0, 65536, 2048):
@@ -93,6 +106,21 @@ def oracle(ctx):
         if "-" in t and tag_of.get(from_tag[t]) == t and from_tag[t] != min(c for c, tt in tag_of.items() if tt == t):
             bad.append({"what": "table tag %r maps to code %d, not its own" % (t, from_tag[t]),
                         "cmds": ["(lang_from_tag %s)" % enc(t)], "impl": str(from_tag[t])})
+    # 'und' for an unknown language, the bare language tag for an unknown sublanguage, the table's tag otherwise
+    tab = source_table()
+    if len(tab) > 50:
+        n_bad = 0
+        for code in range(65536):
+            lang, sub = code & 0x3FF, code >> 10
+            want = "und" if lang not in tab else tab[lang][1].get(sub, tab[lang][0])
+            if tag_of[code] != want and n_bad < 20:
+                n_bad += 1
+                bad.append({"what": "code %d (language %d, sublanguage %d) carries tag %r; the table of language.rs gives %r (%s)"
+                            % (code, lang, sub, tag_of[code], want, "unknown language" if lang not in tab else
+                               "unknown sublanguage: bare language tag" if sub not in tab[lang][1] else "table entry"),
+                            "cmds": ["(lang_tag %d)" % code], "impl": tag_of[code]})
+    else:
+        bad.append({"what": "language table not readable from coq/gen/GenLanguage.v", "cmds": [], "impl": ""})
     for code, t in REFERENCE:
         if tag_of[code] != t:
             bad.append({"what": "Windows identifier %d should carry tag %s, got %r" % (code, t, tag_of[code]),
